@@ -22,6 +22,8 @@ plus
         EV := (mk A NODE) | (hash A) | (inplace ((n Ty)*) A) | (obs A)
         (hash A) memoises every object reachable from A; R := (obs CONSISTENT Term|none) for every (obs A):
         CONSISTENT = the memo at A, if any, is the hash nest of the term A represents now
+  (sbheap KEYDEPTH ((mk A NODE)*) UA S N) -> (ok Term) | (none)
+        subst_bound run on the heap with its cache (Model.lean (e)): argument object UA (closed), body object S, depth N
   (history FIXED (EV*))           -> (ok R*) | (stuck K)
         EV := (mk A NODE) | (wrap A SRC) | (copy (A*) SRC) | (free A) | (eq A B) | (term A)
         NODE := (sv n Ty) | (v n Ty) | (c n Ty) | (ap A A) | (ab x Ty A) | (b i)
@@ -354,6 +356,16 @@ def runMemo (dropAll : Bool) : Heap → List (Addr × HTree) → List Addr → L
       | none => .atom "none"
     runMemo dropAll h l addrs rest (k + 1) (.list [.atom "obs", Sexp.ofBool consistent, ts] :: acc)
 
+/-- (returns an `Option`: a function-valued result would be eta-expanded by the compiler and the
+whole construction re-run at every lookup) -/
+def buildHeap : List MEv → Heap → Option Heap
+  | [], h => some h
+  | .mk a nd :: rest, h =>
+    match alloc h a nd with
+    | some h' => buildHeap rest h'
+    | none => none
+  | _ :: rest, h => buildHeap rest h
+
 def handle (line : String) : String :=
   match Sexp.parse line with
   | some (.list [.atom "hashtree", a]) =>
@@ -414,6 +426,23 @@ def handle (line : String) : String :=
       | .ok rs => toString (Sexp.list (.atom "ok" :: rs))
       | .error k => toString (Sexp.list [.atom "stuck", Sexp.ofNat k])
     | _, _ => "bad-op"
+  | some (.list [.atom "sbheap", kd, .list evs, ua, s0, n0]) =>
+    match kd.toBool?, evs.mapM mevOf, ua.toNat?, s0.toNat?, n0.toNat? with
+    | some keyDepth, some es, some u, some sa, some n =>
+      match buildHeap es Heap.empty with
+      | none => "(none)"
+      | some h =>
+      let top := es.foldl (fun t e => match e with
+        | .mk a _ => max t (a + 1)
+        | _ => t) 0
+      let fresh := (List.range 4000).map (· + top)
+      match sbHeap keyDepth u FUEL h [] fresh sa n with
+      | some (h', _, _, r) =>
+        match readTerm h' FUEL r with
+        | some t => toString (Sexp.list [.atom "ok", termTo t])
+        | none => "(none)"
+      | none => "(none)"
+    | _, _, _, _, _ => "bad-op"
   | some (.list [.atom "history", fx, .list evs]) =>
     match fx.toBool?, evs.mapM evOf with
     | some fixed, some es =>
